@@ -1,0 +1,36 @@
+// Copyright 2017-2021 Lei Ni (nilei81@gmail.com) and other contributors.
+//
+// Licensed under the Apache License, Version 2.0 (the "License");
+// you may not use this file except in compliance with the License.
+// You may obtain a copy of the License at
+//
+//     http://www.apache.org/licenses/LICENSE-2.0
+//
+// Unless required by applicable law or agreed to in writing, software
+// distributed under the License is distributed on an "AS IS" BASIS,
+// WITHOUT WARRANTIES OR CONDITIONS OF ANY KIND, either express or implied.
+// See the License for the specific language governing permissions and
+// limitations under the License.
+
+//go:build verif
+// +build verif
+
+package rsm
+
+import (
+	"github.com/lni/dragonboat/v4/internal/vfs"
+	pb "github.com/lni/dragonboat/v4/raftpb"
+)
+
+// This file is only compiled with the `verif` build tag. It exposes the
+// versioned snapshot writer constructor so that a simulation harness kept
+// outside of this repository can produce snapshot files in the older V1
+// format with the shipped V1 writer (the exported NewSnapshotWriter always
+// writes the default version).
+
+// VerifNewVersionedSnapshotWriter creates a snapshot writer producing the
+// specified snapshot format version.
+func VerifNewVersionedSnapshotWriter(fp string,
+	v SSVersion, ct pb.CompressionType, fs vfs.IFS) (*SnapshotWriter, error) {
+	return newVersionedSnapshotWriter(fp, v, ct, fs)
+}
